@@ -1,36 +1,44 @@
 import P2sh.Props.RefProg
 import P2sh.Core.Fn.Encode
 /-!
-# The oracle and Core.Fn (functions) agree -- Stage A: first-order functions
+# The oracle and Core.Fn (functions and closures) agree
 
 `Props/RefCore.lean` / `Props/RefProg.lean` connect the oracle (`Spec/Ref.lean`) with the function-free source
 semantics `Core.eval` / `Core.evalP`.  This file does the same for `Core/Fn/Lang.lean` (`Core.Fn.evalE` / `evalS` /
-`evalP`, fuel-indexed), the semantics compiler correctness for functions is stated against.
+`evalP` / `evalT`, fuel-indexed), the semantics compiler correctness for functions and closures
+(`Core.Fn.program_correct_fn`) is stated against.
 
-* `toAstF` / `toStmtF` / `toStmtsF` / `toTop`: the embedding of `FExpr` / `FStmt` / `FTop` into the real AST, for names
-  `Names.gn i` (global slot `i`), `Names.ln d i` (local slot `i` of a function at nesting depth `d`), the function's
-  own name and the names of its captured variables (`Ctx`); the recogniser `Core.Fn.ofTops` reads the embedding of
-  `fact` back (`rfl` example at the end).
+* `toAstF` / `toStmtF` / `toStmtsF` / `toTop` / `toTops`: the embedding of `FExpr` / `FStmt` / `FTop` into the real AST, for
+  names `Names.gn i` (global slot `i`), `Names.ln d i` (local slot `i` of a function at nesting depth `d`), the
+  function's own name and the names of its captured variables (`Ctx`; a captured variable keeps the name it has in
+  the function it comes from).  `stdNames` / `stdNames_ok`: names that satisfy `NamesOK`.  The recogniser
+  `Core.Fn.ofTops` reads the embedding of every example program back (`rfl`).
 * `VR CT`: values -- scalars are equal, the oracle's closure `k+1` is Core.Fn's `.clos fd [] hid` when `CT[k] = (fd, hid)`;
   `Inv`: the closure table (`ClosEntry`: name, parameters, body = embedding of the declaration `Φ fd`, captured
-  globals by reference, captured values related pointwise to the closure object `hid`), the cells / globals;
+  globals by reference, captured `.cap v` bindings related pointwise to the closure object `hid`), cells / globals;
   `Frame`: an activation -- the environment is `mkEnv V vals base` (block scopes of local slots over the
-  activation's base `[self, (%self, ·) :: captured]`), the slots hold related values.
-* `all_ok`: by induction on the oracle's fuel, for expressions, arguments, statements, statement lists, blocks
-  and `callValue`: a value / flow of the oracle is the (related) value / flow of Core.Fn's evaluator for some
-  fuel; a runtime error of the oracle means no fuel makes Core.Fn's evaluator succeed (`Post`).  Nothing is
-  claimed for `unc` / `mem` / `fuel`.
-* theorems `ref_call_fn_partial`, `ref_call_fn_error_partial`, `ref_expr_fn_partial`, `ref_expr_fn_error_partial`,
-  `ref_stmts_fn_partial`, `ref_stmts_fn_error_partial`.
+  activation's base `[self, (%self, ·) :: captured]`), the slots hold related values; `TopR`: the top level.
+* `all_ok`: by induction on the oracle's fuel, for expressions, `match` arms, arguments, statements, statement
+  lists, blocks, loops and `callValue`: a value / flow of the oracle is the (related) value / flow of Core.Fn's
+  evaluator for some fuel; a runtime error of the oracle means no fuel makes Core.Fn's evaluator succeed
+  (`Post`: Core.Fn answers `none` both for an error and for missing fuel).  Nothing is claimed for `unc` / `mem` / `fuel`.
+* theorems: `ref_program_fn_partial`, `ref_program_fn_error_partial` (whole programs against `evalT`, `Inv` established
+  from the empty state), `ref_program_fn_compiled_partial` (composition with `Core.Fn.program_correct_fn`: the compiled
+  program on the machine), `ref_call_fn_partial`, `ref_expr_fn_partial`, `ref_stmts_fn_partial` and their `_error_` versions.
 
-`_partial`: the fragment is `okE` / `okS` / `okP`: literals, unary and binary operators (also applied to function
-values), `<` / `<=`, `&&` / `||`, `if` / `else` (expression and statement), globals below the horizon, parameters and
-locals (`let` anywhere in a body, blocks, assignment), the function's own name (recursion), calls (arity errors,
-calls of non-functions), `return e;` / `return;`, `break` / `continue` flows, blocks.  EXCLUDED: `match`, `while` /
-`loop`, function literals inside functions and captured variables (Stage B: the relations `ClosEntry` / `Frame` already
-carry the captured values, the cases `mkclos` / `fget` are not proved), assignment to captured copies, arrays, maps,
-builtins; function bodies whose last statement is a block or a loop (the oracle leaves their value open); a
-whole-program theorem over `FTop` lists (`evalT`) is not stated -- `Inv` is established by hand in the example.
+`_partial`: the fragment is `okE` / `okArms` / `okArgs` / `okS` / `okP` / `okTop`: literals, unary and binary operators (also
+applied to function values), `<` / `<=`, `&&` / `||`, `if` / `else` (expression and statement), `match` (literal, range,
+`|`, default patterns), globals, parameters and locals (`let` anywhere in a body, blocks, assignment), the function's
+own name (recursion), calls (arity errors, calls of non-functions), `return e;` / `return;`, `while` / `loop` with
+labelled and plain `break` / `continue`, function literals anywhere in an expression capturing parameters,
+locals, captured variables (capture chains) and the enclosing function itself BY VALUE, reads of captured
+variables, closures returned / stored / called after their creator has returned; at top level `let`, `fn f…`,
+`f = fn…` (mutual recursion through globals) and statements.  The predicates are `Bool`-valued; the single test that
+is not computable is `Φ fd = some d` for a function literal (`Φ` is an arbitrary function; `Classical.decide`).
+EXCLUDED: assignment to a captured variable (`fset`: the oracle poisons the closure's copy and `Frame` keeps the
+activation's base fixed), arrays, maps, builtins; `let` inside a top-level block; a global function's body
+mentioning a global defined after it (also unresolved for the real compiler) or its own global slot other than by
+its name; function bodies whose last statement is a block or a loop (the oracle leaves their value open).
 No disagreement between the oracle and `Core.Fn` was found on the fragment.
 -/
 namespace P2sh.RefFn
@@ -2799,6 +2807,13 @@ end Call
 
 /-! ## whole programs: top-level statements and function definitions against `evalT` -/
 
+/-- `f = fn(…) {…};` at top level is the expression statement that assigns a function literal without captured variables -/
+def fnSetStmt (ls l gi : Nat) (code lines : List Nat) (d : FDecl) : FStmt :=
+  .expr ls (.gset l gi (.mkclos d.line code lines d.np d.nl d.body []))
+
+theorem toTop_fnSet (N : Names) (ls l gi : Nat) (code lines : List Nat) (d : FDecl) :
+    toTop N (.fnSet ls l gi code lines d) = toStmtF N topCtx (fnSetStmt ls l gi code lines d) := rfl
+
 open Classical in
 /-- programs covered: `let` at top level defines the next global slot; `fn f(…) {…}` / `let f = fn…` (`FTop.fnDef`)
 defines the next global slot, its body refers to earlier globals and to itself by its own name; every other
@@ -2812,7 +2827,8 @@ noncomputable def okTop (N : Names) (Φ : FnDef → Option FDecl) (G : Nat) : Na
   | n, .fnDef _ gi code lines d :: rest =>
     (gi == n) && decide (n < G) && decide (Φ (mkFd code lines d) = some d) && decide (d.np ≤ d.nl) &&
     okP N Φ (fnCtx N gi) n d.nl (paramVis d.np) d.body && lastOK d.body && okTop N Φ G (n + 1) rest
-  | _, .fnSet .. :: _ => false
+  | n, .fnSet ls l gi code lines d :: rest =>
+    okS N Φ topCtx n 0 [] (fnSetStmt ls l gi code lines d) && okTop N Φ G n rest
 
 /-- one top-level item of `evalT` -/
 def stepT (Φ : FnDef → Option FDecl) (g : List Val) (h : List (List Val)) (a : Heap) : FTop → Nat → Option (List Val × List (List Val) × Heap)
@@ -2837,6 +2853,14 @@ theorem evalT_cons (Φ : FnDef → Option FDecl) (k : Nat) (g : List Val) (h : L
   | fnSet ls l gi code lines d =>
     simp only [Core.Fn.evalT, stepT]
     split <;> rfl
+
+theorem stepT_fnSet_eq (Φ : FnDef → Option FDecl) (g : List Val) (h : List (List Val)) (a : Heap) (ls l gi : Nat) (code lines : List Nat)
+    (d : FDecl) (k k' : Nat) :
+    stepT Φ g h a (.stmt (fnSetStmt ls l gi code lines d)) (k + 3) = stepT Φ g h a (.fnSet ls l gi code lines d) k' := by
+  cases d with
+  | mk np nl body line =>
+    by_cases hgi : gi < g.length <;>
+      simp [stepT, fnSetStmt, Core.Fn.evalS, Core.Fn.evalE, Core.Fn.capVals, mkFd, hgi]
 
 theorem mono_stepT (Φ : FnDef → Option FDecl) (g : List Val) (h : List (List Val)) (a : Heap) (t : FTop) : FMono (stepT Φ g h a t) := by
   intro k k' r hle hk
@@ -2974,7 +2998,36 @@ theorem head_ok (f : Nat) (t : FTop) (rest : List FTop) (n : Nat) (base : Env) (
   have hcl : st.cells.length = n := hI.cellsLen
   subst hcl
   cases t with
-  | fnSet ls l gi code lines d => simp [okTop] at hok
+  | fnSet ls l gi code lines d =>
+    simp only [okTop, Bool.and_eq_true] at hok
+    have hF := hr.frame G (fun _ => Val.null)
+    have hs := (hall (f+1)).S (topAct st.cells.length base) st.cells.length CT [] (fun _ => Val.null) st ⟨[], g, h, a⟩
+      (fnSetStmt ls l gi code lines d) hI hF (Nat.le_refl _) hok.1
+    rw [toTop_fnSet]
+    refine Res.mono ?_ ?_ hs
+    · rintro ⟨fl, v, env1⟩ s1 ⟨k, ⟨σ1, fl', bv⟩, hk, V0', vals1, CT1, henv, hfr, hn1, -⟩ hnormal
+      have hk' : Core.Fn.evalS Φ k none ⟨[], g, h, a⟩ (fnSetStmt ls l gi code lines d) = some (σ1, fl', bv) := hk
+      have hfl : fl = .normal := hnormal
+      subst hfl
+      cases fl' <;> first | exact hfr.elim | skip
+      have hI1 : Inv N Φ CT1 st.cells.length s1 σ1 := hn1.inv
+      have hl1 : σ1.l.length = 0 := hn1.frame.lLen
+      have hg1 : σ1.g.length = g.length := (glen_all Φ k).S _ _ _ _ _ _ hk'
+      have hσ1 : σ1 = ⟨[], σ1.g, σ1.h, σ1.a⟩ := by
+        cases σ1 with
+        | mk l1 g1 h1 a1 =>
+          have : l1 = [] := by simpa using hl1
+          simp [this]
+      have henv' : env1 = base := henv
+      subst henv'
+      have hstep : stepT Φ g h a (.stmt (fnSetStmt ls l gi code lines d)) k = some (σ1.g, σ1.h, σ1.a) := by simp [stepT, hk']
+      have hstep3 := mono_stepT Φ g h a _ k (k + 3) _ (Nat.le_add_right _ _) hstep
+      rw [stepT_fnSet_eq Φ g h a ls l gi code lines d k 0] at hstep3
+      refine ⟨0, (σ1.g, σ1.h, σ1.a), CT1, st.cells.length, hstep3, ⟨?_, by rw [hg1]; exact hr.gl, hr.glob, hr.bound⟩, hok.2⟩
+      rw [hσ1] at hI1; exact hI1
+    · intro hnone k
+      rw [← stepT_fnSet_eq Φ g h a ls l gi code lines d 0 k]
+      simp [stepT, show Core.Fn.evalS Φ (0 + 3) none ⟨[], g, h, a⟩ (fnSetStmt ls l gi code lines d) = none from hnone 3]
   | fnDef l gi code lines d =>
     simp only [okTop, Bool.and_eq_true, beq_iff_eq, decide_eq_true_eq] at hok
     obtain ⟨⟨⟨⟨⟨⟨hgi0, hnG⟩, hΦ⟩, hnp⟩, hbody⟩, hlast⟩, hrest⟩ := hok
@@ -3497,6 +3550,85 @@ example : ∃ (k : Nat) (g' : List Val) (h' : List (List Val)) (a' : Heap) (x y 
   obtain ⟨y, hy1, hy2⟩ := hr.int_at hcells (j := 2) (i := 20) rfl
   obtain ⟨z, hz1, hz2⟩ := hr.int_at hcells (j := 3) (i := 30) rfl
   exact ⟨k, g', h', a', x, y, z, hev, hx1, hx2, hy1, hy2, hz1, hz2⟩
+
+/-! ### mutual recursion through a global assigned later (`f = fn…`) -/
+
+def evD : FDecl := ⟨1, 1, [.expr 1 (.ite 1 (.bin 1 .equal (.lget 1 0) (.lit 1 (.int 0))) (.lit 1 (.int 1))
+  (.call 1 (.gget 1 0) (.cons (.bin 1 .sub (.lget 1 0) (.lit 1 (.int 1))) .nil)))], 1⟩
+def odD : FDecl := ⟨1, 1, [.expr 1 (.ite 1 (.bin 1 .equal (.lget 1 0) (.lit 1 (.int 0))) (.lit 1 (.int 0))
+  (.call 1 (.gget 1 1) (.cons (.bin 1 .sub (.lget 1 0) (.lit 1 (.int 1))) .nil)))], 1⟩
+
+/-- ```
+let od = null;
+fn ev(n) { if n == 0 { 1 } else { od(n - 1) } }
+od = fn(n) { if n == 0 { 0 } else { ev(n - 1) } };
+let r = ev(4);
+``` -/
+def evT : List FTop := [
+  .stmt (.letG 1 0 (.null 1)),
+  .fnDef 1 1 (Core.Fn.fnTop 0 evD).1 (Core.Fn.fnTop 0 evD).2 evD,
+  .fnSet 1 1 0 (Core.Fn.fnTop 4 odD).1 (Core.Fn.fnTop 4 odD).2 odD,
+  .stmt (.letG 1 2 (.call 1 (.gget 1 1) (.cons (.lit 1 (.int 4)) .nil)))]
+
+theorem evT_ok' (Φ : FnDef → Option FDecl)
+    (h1 : Φ (mkFd (Core.Fn.fnTop 0 evD).1 (Core.Fn.fnTop 0 evD).2 evD) = some evD)
+    (h2 : Φ (mkFd (Core.Fn.fnTop 4 odD).1 (Core.Fn.fnTop 4 odD).2 odD) = some odD) :
+    okTop stdNames Φ 3 0 evT = true := by
+  simp only [evT, evD, odD] at h1 h2 ⊢
+  simp [okTop, fnSetStmt, okP, okS, okE, okArgs, okCap, lastOK, paramVis, fnCtx, topCtx, visAfter, h1, h2]
+
+theorem evT_ok : okTop stdNames (Core.Fn.phiT evT) 3 0 evT = true := evT_ok' _ (by rfl) (by rfl)
+
+theorem evT_ref : cellInts (run (evalStmts 80 [[]] (toTops stdNames evT) .null) {}) = some [none, none, some 1] := by
+  decide +kernel
+
+example : ∃ (k : Nat) (g' : List Val) (h' : List (List Val)) (a' : Heap) (x : Int64),
+    Core.Fn.evalT (Core.Fn.phiT evT) k (List.replicate 3 .null) [[]] {} evT = some (g', h', a') ∧ g'[2]? = some (.int x) ∧ x.toInt = 1 := by
+  obtain ⟨v, env', st', hrun, hcells⟩ := of_cellInts evT_ref
+  obtain ⟨k, g', h', a', CT, n', hev, hr⟩ := ref_program_fn_partial stdNames_ok 3 [[]] {} evT_ok hrun
+  obtain ⟨x, hx1, hx2⟩ := hr.int_at hcells (j := 2) (i := 1) rfl
+  exact ⟨k, g', h', a', x, hev, hx1, hx2⟩
+
+example : (Core.Fn.ofTops 60 ⟨0, [], []⟩ 0 (toTops stdNames evT)).map (·.1) = some evT := by rfl
+
+/-! ### outside the fragment: a FINDING -- assignment to a captured variable under re-entrancy
+
+`fset` (assignment to a captured variable) is excluded from the theorems, and has to be: the oracle commits to an
+outcome Core.Fn (the VM: `Closure::free` is a shared `RefCell`) does not produce when the assignment happens
+while an EARLIER activation of the same closure object is still running.  The oracle keeps the captured copies
+per activation and poisons only the closure-table entry (what LATER activations see is `unc`); the activation that
+was already running reads its own stale copy and the oracle answers with it. -/
+
+def reBody : List FStmt := [.ifS 1 1 (.bin 1 .equal (.lget 1 0) (.lit 1 (.int 0)))
+  [.expr 1 (.fset 1 0 (.lit 1 (.int 5))), .expr 1 (.lit 1 (.int 0))]
+  [.expr 1 (.call 1 (.gget 1 0) (.cons (.lit 1 (.int 0)) .nil)), .expr 1 (.fget 1 0)]]
+def reD : FDecl := ⟨1, 1, reBody, 1⟩
+def reLit : FExpr := .mkclos 1 (Core.Fn.fnTop 1 reD).1 (Core.Fn.fnTop 1 reD).2 1 1 reBody [.loc 0]
+def reMkD : FDecl := ⟨0, 1, [.letL 1 0 (.lit 1 (.int 0)), .ret 1 reLit], 1⟩
+
+/-- ```
+let g = null;
+fn mk() { let a = 0; return fn(n) { if n == 0 { a = 5; 0 } else { g(0); a } }; }
+g = mk();
+let r = g(1);
+``` -/
+def reT : List FTop := [
+  .stmt (.letG 1 0 (.null 1)),
+  .fnDef 1 1 (Core.Fn.fnTop 0 reMkD).1 (Core.Fn.fnTop 0 reMkD).2 reMkD,
+  .stmt (.expr 1 (.gset 1 0 (.call 1 (.gget 1 1) .nil))),
+  .stmt (.letG 1 2 (.call 1 (.gget 1 0) (.cons (.lit 1 (.int 1)) .nil)))]
+
+/-- the program is in the domain of the recogniser (it is what the real compiler's fragment denotes) -/
+example : (Core.Fn.ofTops 60 ⟨0, [], []⟩ 0 (toTops stdNames reT)).map (·.1) = some reT := by rfl
+
+/-- the oracle ends normally with `r = 0` … -/
+theorem reT_oracle : cellInts (run (evalStmts 80 [[]] (toTops stdNames reT) .null) {}) = some [none, none, some 0] := by
+  decide +kernel
+
+/-- … Core.Fn's evaluation (the VM's behaviour, by `program_correct_fn`) ends with `r = 5` -/
+theorem reT_coreFn : (Core.Fn.evalT (Core.Fn.phiT reT) 60 (List.replicate 3 .null) [[]] {} reT).map (fun r => r.1.map intOf) =
+    some [none, none, some 5] := by
+  decide +kernel
 
 end Examples
 
